@@ -158,6 +158,10 @@ class CallMixin:
     def getattr_value(self, v, attr, st, line):
         if isinstance(v, Opt):
             v = self.unwrap_opt(v, st, f'attr_{attr}', line)
+        if isinstance(v, tuple) and len(v) == 2 and isinstance(v[0], str) and v[0] == 'record':
+            if attr in v[1]:
+                return [ok(v[1][attr], st)]
+            raise EngineError(f'record has no field {attr}')
         if isinstance(v, Ref):
             h = st.obj(v)
             if h.kind == 'obj':
